@@ -296,6 +296,31 @@ def run(ctx):
             if neg:
                 rt, rf = rf, rt
             oke = any(n in rt and n not in rf for n in nones) and any(s in rf and s not in rt for s in somes)
+    if not oke and len(ie) == 1 and _field_of_first_arg(b, defs, ie[0][1]) == "answers":
+        # `(!answers.is_empty()).then_some((reply, unicast))` as the returned value
+        ts = mu.calls(b, r"<impl bool>::then_some$")
+        if len(ts) == 1:
+            cond = mu.op_local(ts[0][1]["args"][0])
+            neg = 0
+            cur = cond
+            for _ in range(6):
+                d = mu.single_def(defs, cur) if cur is not None else None
+                if d is None:
+                    break
+                if d[1] == "term":
+                    if d[2] is ie[0][1]:
+                        # Some exactly when NOT empty: an odd number of negations, and the Option is what the function returns
+                        ret_ok = mu.origin_local(b, defs, 0) == ts[0][1]["dest"]["l"] or ts[0][1]["dest"]["l"] == 0
+                        oke = (neg % 2 == 1) and ret_ok
+                    break
+                rv = d[2]
+                if rv.get("k") == "un" and rv.get("op") == "Not":
+                    neg += 1
+                    cur = mu.op_local(rv["a"])
+                elif rv.get("k") == "use":
+                    cur = mu.op_local(rv["op"])
+                else:
+                    break
     if oke:
         report.nontriv("none iff empty")
     else:
